@@ -9,6 +9,11 @@ for f in ("patch.diff", "demo.diff", "README.md"):
     shutil.copy(os.path.join(src, f), os.path.join(dst, f))
 log = open(os.path.join(src, "confirm.log")).read() if os.path.exists(os.path.join(src, "confirm.log")) else ""
 checks = dict(re.findall(r"check (C\d+) rc=(\d)", log))
+fails = []
+sl = os.path.join(src, "confirm_suite_mutant.log")
+if os.path.exists(sl):
+    fails = sorted(set(re.findall(r"^\s+(?:TRY \d+ )?FAIL \[[^\]]*\] \(?[^)]*\)?\s*(\S+ \S+)", open(sl).read(), re.M)))
+LOAD = ("performance_tests::", "test_issue_1100", "compilation::test::flow::")
 meta = {
     "breaks_property": prop,
     "needs_to_manifest": needs,
@@ -18,6 +23,8 @@ meta = {
         "suite_on_mutated_tree": re.search(r"suite on mutated tree: rc=(\d+)", log).group(1) if re.search(r"suite on mutated tree: rc=(\d+)", log) else "?",
         "ran": "tools/confirm_mutant.sh in a scratch worktree (git apply demo.diff; run demo; git apply patch.diff; run demo; run crate suite; VERIF_REPO=<worktree> ./vcheck <props> --quick)",
     },
+    "suite_failures_on_mutated_tree": [{"test": f, "load_sensitive_wall_clock_test": any(x in f for x in LOAD)} for f in fails],
+    "suite_note": "wall-clock tests (format_diff::performance_tests benchmarks with a 10 ms bound, #[timeout(5000)] flow tests) fail on the clean tree too while other jobs load the machine; they are not counted as suite failures" if fails else "",
     "checks_at_confirmation": {k: ("fires" if v == "1" else "silent") for k, v in checks.items()},
     "detected_by": None if det == "-" else det,
 }
